@@ -4,6 +4,9 @@ Hang kinds per class (a blocked application hangs only the sync worker; gthread 
 loop whatever the handlers do): sync {application blocks forever, application that ignores SIGABRT and blocks, SIGSTOP},
 gthread {SIGSTOP}, gevent / eventlet {non-yielding busy loop, SIGSTOP}.  Healthy patterns: idle for 4 x timeout;
 back-to-back requests each lasting 0.5 x timeout; (gthread / gevent / eventlet) one request lasting 3 x timeout in a handler.
+Idle on a listener the master did not create itself: the launcher (the process that becomes the master) opens the listening
+socket in BLOCKING mode, as a socket-activating service manager does by default, and hands it over either the systemd way
+(descriptor 3, LISTEN_FDS / LISTEN_PID) or as `--bind fd://N`; one request, idle for 4 x timeout, one more request.
 """
 import os
 import signal
@@ -12,6 +15,45 @@ import time
 
 PROP = "C11"
 TIMEOUT = 2
+
+# run by the launcher before gunicorn starts (not again in a re-executed master): a bound, listening, blocking socket at
+# descriptor %(fd)d; what was handed over is written down for the harness
+PRELUDE = r'''
+import os as _os, socket as _socket
+if not _os.environ.get("GUNICORN_PID"):
+    _addr = %(addr)r
+    _s = _socket.socket(_socket.AF_INET if isinstance(_addr, tuple) else _socket.AF_UNIX, _socket.SOCK_STREAM)
+    if isinstance(_addr, tuple):
+        _s.setsockopt(_socket.SOL_SOCKET, _socket.SO_REUSEADDR, 1)
+    _s.bind(_addr)
+    _s.listen(64)
+    if _s.fileno() != %(fd)d:
+        _os.dup2(_s.fileno(), %(fd)d)
+        _s.close()
+    else:
+        _s.detach()
+    _os.set_inheritable(%(fd)d, True)
+    if %(systemd)r:
+        _os.environ["LISTEN_FDS"] = "1"
+        _os.environ["LISTEN_PID"] = str(_os.getpid())
+    with open(%(note)r, "w") as _f:
+        _f.write("%%s %%d\n" %% ("blocking" if _os.get_blocking(%(fd)d) else "non-blocking", _os.fstat(%(fd)d).st_ino))
+'''
+
+
+def socket_inodes(pid):
+    out = set()
+    try:
+        for fd in os.listdir("/proc/%d/fd" % pid):
+            try:
+                t = os.readlink("/proc/%d/fd/%s" % (pid, fd))
+            except OSError:
+                continue
+            if t.startswith("socket:["):
+                out.add(int(t[8:-1]))
+    except OSError:
+        pass
+    return out
 
 
 def probe_loop(e4, srv, stop, log):
@@ -48,7 +90,16 @@ def scenario(run, e4, sc):
             "if _hang:\n"
             "    while True:\n"
             "        time.sleep(3600)\n", 1)
-    srv = e4.Server("c11", worker_class=wc, workers=2, settings=settings, bind="tcp", app_source=app_source)
+    srv = e4.Server("c11", worker_class=wc, workers=2, settings=settings, bind=sc.get("bind", "tcp"), app_source=app_source)
+    note = os.path.join(srv.dir, "listener_handed_over")
+    if "inherited" in sc["kind"]:
+        systemd = sc["kind"].endswith("systemd")
+        fd = 3 if systemd else 7
+        srv.launcher_prelude = PRELUDE % {"addr": srv.addr, "fd": fd, "systemd": systemd, "note": note}
+        if not systemd:
+            srv.bind = "fd://%d" % fd
+            srv.write_conf()
+        # (systemd way: the configured bind names the same address - a master that did not take the descriptor could not bind it)
     lag = e4.LagProbe()
     lag.start()
     stop = threading.Event()
@@ -63,6 +114,21 @@ def scenario(run, e4, sc):
             threads = []
             if kind == "healthy-idle":
                 time.sleep(4 * TIMEOUT)
+            elif kind.startswith("healthy-idle-inherited"):
+                try:
+                    with open(note) as f:
+                        mode, ino = f.read().split()
+                except (OSError, ValueError):
+                    return v, "the launcher did not report the listener it handed over", info
+                if mode != "blocking" or int(ino) not in socket_inodes(srv.master_pid) or \
+                        not all(int(ino) in socket_inodes(p) for p in w0):
+                    return v, "the master and its workers do not listen on the (blocking) socket that was handed over", info
+                r = e4.request(srv.addr, "/pid", timeout=6)
+                if r["outcome"] != "ok":
+                    return v, "no answer on the inherited listener: %s" % r["outcome"], info
+                time.sleep(4 * TIMEOUT)
+                r = e4.request(srv.addr, "/pid", timeout=6)
+                info["request_after_idle"] = r["outcome"]
             elif kind == "healthy-busy":
                 # back-to-back requests of 0.5 x timeout on every worker for 4 x timeout
                 def hammer():
@@ -142,6 +208,8 @@ def scenario(run, e4, sc):
                     wc, w0, w1, "WORKER TIMEOUT" in log, TIMEOUT, kind)))
             else:
                 run.count("live_healthy_checks")
+                if "inherited" in kind:
+                    run.count("live_inherited_blocking_listener_checks")
             return v, None, info
         # ---- hang scenarios ----------------------------------------------------------------------
         plog = []
@@ -240,7 +308,8 @@ def scenario(run, e4, sc):
 
 
 def plan(run, tier, seed):
-    run.require("live_healthy_checks", "live_hung_worker_killed", "live_replacement_checks", "live_probe_checks")
+    run.require("live_healthy_checks", "live_hung_worker_killed", "live_replacement_checks", "live_probe_checks",
+                "live_inherited_blocking_listener_checks")
     cells = [("sync", "block"), ("sync", "block-ignabrt"), ("sync", "stop"), ("gthread", "stop"), ("gevent", "busy"),
              ("eventlet", "busy"), ("gevent", "stop"), ("eventlet", "stop"),
              ("sync", "healthy-idle"), ("gthread", "healthy-idle"), ("gevent", "healthy-idle"), ("eventlet", "healthy-idle"),
@@ -250,6 +319,14 @@ def plan(run, tier, seed):
              ("gevent", "healthy-long-retired"), ("gthread", "healthy-long-retired"), ("eventlet", "healthy-long-retired"),
              ("gthread", "healthy-idle-keepalive"), ("gevent", "healthy-idle-keepalive"), ("eventlet", "healthy-idle-keepalive"),
              ("sync", "hang-at-boot"), ("gthread", "hang-at-boot"), ("gevent", "hang-at-boot")]
+    # idle on a listener that was handed to the master in blocking mode (systemd socket activation / --bind fd://N)
+    how = ["systemd", "fd"]
+    inherited = [(c, "healthy-idle-inherited-" + h) for c in ("sync", "gthread", "gevent", "eventlet") for h in how]
+    if tier == "quick":
+        # the sync worker (the one whose idle wait is an accept() on the listener itself) in every run, one concurrent class besides
+        inherited = [("sync", "healthy-idle-inherited-" + how[seed % 2]),
+                     (["gthread", "gevent", "eventlet"][(seed + 2) % 3], "healthy-idle-inherited-" + how[(seed + 1) % 2])]
+    binds = {c: ["tcp", "unix"][(seed // 2 + i) % 2] for i, c in enumerate(inherited)}
     if tier == "quick":
         # every hang kind and every healthy pattern once per run, classes rotated by the seed
         rot = ["gevent", "gthread", "eventlet"]
@@ -262,8 +339,11 @@ def plan(run, tier, seed):
                 or (c[1] in ("healthy-long-retired", "healthy-idle-keepalive") and c[0] in (rot[seed % 3], rot[(seed + 1) % 3]))
                 or (c[1] not in ("healthy-long-retired", "healthy-idle-keepalive", "hang-at-boot") and (i + seed) % 2 == 0)]
         cells = pick
-    return [{"kind": "live", "scenario": {"class": c, "kind": k, "idx": i, "seed": seed}, "seed": seed, "tier": tier}
-            for i, (c, k) in enumerate(cells)]
+    out = [{"kind": "live", "scenario": {"class": c, "kind": k, "idx": i, "seed": seed}, "seed": seed, "tier": tier}
+           for i, (c, k) in enumerate(cells)]
+    # (started first: they take 4 x timeout + boot each and would otherwise be the tail of the run)
+    return [{"kind": "live", "scenario": {"class": c, "kind": k, "idx": len(out) + j, "seed": seed, "bind": binds[(c, k)]},
+             "seed": seed, "tier": tier} for j, (c, k) in enumerate(inherited)] + out
 
 
 def shard(run, sh):
